@@ -45,11 +45,20 @@ var clientConfs = []*CConf{
 	{Name: "default/tls-fails", CompSel: "none", EncSel: "default", Auth: "guest", Kind: "memtls", TLSOk: false},
 }
 
+// configurations made by a real ClientBuilder (Model K)
+var builtClientConfs = []*CConf{
+	{Name: "built:guest", Kind: "mem", TLSOk: true, Builder: []KOp{{Op: "guest"}}},
+	{Name: "built:tls+plain", Kind: "memtls", TLSOk: true, Builder: []KOp{{Op: "enc", Arg: "tls"}, {Op: "plain", N: 5}}},
+	{Name: "built:none+key, overridden", Kind: "memtls", TLSOk: true, Builder: []KOp{{Op: "plain", N: 3}, {Op: "enc", Arg: "tls"}, {Op: "key", N: 4}, {Op: "enc", Arg: "none"}, {Op: "comp", Arg: "none"}}},
+	{Name: "built:defaults+external", Kind: "memtls", TLSOk: true, Builder: []KOp{{Op: "external", N: 7}}},
+	{Name: "built:gzip+transport", Kind: "mem", TLSOk: true, Builder: []KOp{{Op: "comp", Arg: "gzip"}, {Op: "transport"}, {Op: "guest"}, {Op: "transport"}}},
+}
+
 func init() {
 	register("C08", func(env *Env) error {
-		env.Header = "From Coq Require Import List String.\nImport ListNotations.\nOpen Scope string_scope.\nFrom Lime Require Import Base.Res Hs.Types Hs.Client Corr.C08."
+		env.Header = "From Coq Require Import List String.\nImport ListNotations.\nOpen Scope string_scope.\nFrom Lime Require Import Base.Res Hs.Types Hs.Client Hs.ClientBuilder Corr.C08."
 		env.ShardSize = 250
-		env.Rule = "every server script up to the depth bound over a 23-letter alphabet (every session state incl. regressions, id variants, offers with normal/empty/unknown options, matching/different/empty/unknown confirmations, scheme lists, round-trip data, data envelope, undecodable bytes, EOF), extended breadth-first while the client is still waiting, x client configurations (selector and authenticator choices incl. the library defaults, with/without TLS configuration, TLS handshake succeeding or not), against the real ClientChannel.EstablishSession over an injected in-memory TCP connection. Non-trivial: the client sent at least two envelopes. Distinct by (configuration, script)."
+		env.Rule = "every server script up to the depth bound over a 23-letter alphabet (every session state incl. regressions, id variants, offers with normal/empty/unknown options, matching/different/empty/unknown confirmations, scheme lists, round-trip data, data envelope, undecodable bytes, EOF), extended breadth-first while the client is still waiting, x client configurations (selector and authenticator choices incl. the library defaults and configurations made by sequences of calls on a real ClientBuilder, with/without TLS configuration, TLS handshake succeeding or not), against the real ClientChannel.EstablishSession over an injected in-memory TCP connection. Non-trivial: the client sent at least two envelopes. Distinct by (configuration, script)."
 		var rc CCase
 		if ok, err := env.ReplayDesc(&rc); err != nil {
 			return err
@@ -60,7 +69,7 @@ func init() {
 		}
 		clientRuns, clientRunsMax := 0, env.Pick(60, 1500)
 		depth := env.Pick(3, 4)
-		confs := clientConfs[:env.Pick(3, len(clientConfs))]
+		confs := append(append([]*CConf(nil), clientConfs[:env.Pick(3, len(clientConfs))]...), builtClientConfs[1:env.Pick(3, len(builtClientConfs))]...)
 		for _, conf := range confs {
 			level := [][]SIn{{}}
 			for d := 1; d <= depth && len(level) > 0; d++ {
